@@ -6,8 +6,21 @@ package main
 
 import (
 	"fmt"
+	"math/rand"
 	"strings"
 )
+
+// crashInLastStep: a `restart` DIRECTLY after the removal step that finished the removal.  For model and
+// specification the step is one transaction, so this is a restart after a completed removal; the executor restarts
+// the wallet on the copy of its directory taken between two commits of that step if the step committed more than
+// once (eng_rem_fork.go) - the crash point that leaves a wallet without status but with its keystore when the last
+// step is not atomic (seeded/C08-5).  What follows in every history (residue scan with its specification column,
+// Wallets(), UseWallet, the survivors' observations, follower activity, re-import of the mnemonic) then speaks.
+func crashInLastStep(g *Gen, op func(class, f string, a ...interface{})) {
+	op("restart-in-last-removal-step", "restart")
+	op("inittasks", "inittasks")
+	op("tasks", "tasks")
+}
 
 // ---------------------------------------------------------------- C08
 
@@ -19,9 +32,14 @@ func genRem(g *Gen) {
 		if h%6 == 5 {
 			genRemMixed(g)
 		}
+		if h%6 == 2 {
+			genRemTwoStep(g, h)
+		}
 	}
 	if !g.Quick() {
 		genRemBig(g)
+		genRemBigReorg(g, false)
+		genRemBigReorg(g, true)
 	}
 }
 
@@ -37,6 +55,7 @@ func (t *irGen) survivors(except string) []string {
 
 func genRemHistory(g *Gen, idx int) {
 	r := g.Rng
+	r2 := rand.New(rand.NewSource(g.Seed*611953 + int64(idx))) // crashInLastStep: the rest of the stream does not move
 	l := newLedGen(g, "rem")
 	t := &irGen{g: g, l: l}
 	l.start(2 + r.Intn(2))
@@ -137,10 +156,14 @@ func genRemHistory(g *Gen, idx int) {
 			}
 		}
 		t.op("remstep", "remstep")
+		if r2.Intn(2) == 0 {
+			crashInLastStep(g, t.op)
+		}
 		t.op("remstep-extra", "remstep")
 		t.live = t.survivors(w)
 		// ---- after the removal
 		t.op("residue-after", "residue %s", w)
+		t.op("dangling-after", "dangling")
 		t.op("pendmention", "pendmention %s", w)
 		t.op("wallets", "wallets")
 		t.op("use-removed", "use %s", w)
@@ -163,6 +186,7 @@ func genRemHistory(g *Gen, idx int) {
 		t.drain1()
 		t.observe1(t.live, true)
 		t.op("residue-later", "residue %s", w)
+		t.op("dangling-later", "dangling")
 		// ---- the same mnemonic can be imported again
 		if r.Intn(2) == 0 {
 			t.op("reimport", "import %s mn %d", w, len(l.addrs[w]))
@@ -235,11 +259,241 @@ func genRemBig(g *Gen) {
 		t.op("rembegin", "rembegin %s", w)
 	}
 	t.op("remstep-big", "remstep")
+	crashInLastStep(g, t.op)
 	t.op("remstep-extra", "remstep")
 	t.op("residue-after", "residue %s", w)
 	t.op("wallets", "wallets")
 	t.observe1([]string{"W2"}, true)
 	g.Stats["more-credits-than-one-step"]++
+}
+
+// genRemBigReorg (defect D45): a removal that needs two steps (20 003 credits of W2 in one coinbase, which also
+// pays the survivor W1) with a REORGANISATION BETWEEN THE STEPS that rolls back the block of that coinbase, i.e. a
+// block connected before the first step.  X3 spends the first and the last coin of W2: the first step deletes the
+// credits 0..19999 in key order, with the debit (X3, 0); the debit (X3, 1) of the last coin stays for the second
+// step.  Before the repair the first step also erased X3's tx record (nobody else needs it), the reorganisation
+// could not roll X3 back, rolled the coinbase back (W1 needs its record) and the debit (X3, 1) stayed for ever:
+// `dangling` = d:X3:1 (specification: -).
+func genRemBigReorg(g *Gen, onlyW2 bool) {
+	g.Reset()
+	op := g.Op
+	op("params", "params 4 3")
+	op("wallet", "wallet W1")
+	op("addr", "addr W1 A1 std")
+	op("wallet", "wallet W2")
+	op("addr", "addr W2 A2 std")
+	outs := make([]string, 0, 20004)
+	for i := 0; i < 20003; i++ {
+		outs = append(outs, "A2:1")
+	}
+	if !onlyW2 {
+		outs = append(outs, "A1:7")
+	} else {
+		// the coinbase pays W2 alone: its own record is removable, and the first step leaves three of its credits
+		// (the credits half of the repair keeps the record for them: `residue` between the steps, after the
+		// reorganisation, then shows no stale credit)
+		g.Stats["big-coinbase-of-removed-wallet-only"]++
+	}
+	op("tx-big", "tx CBIG 1 cb %s", strings.Join(outs, ";"))
+	op("block", "block B1 G CBIG")
+	op("submit", "submit B1")
+	op("notify", "notify B1")
+	op("fill", "fill 4 F 1")
+	op("tx", "tx C2 2 cb X1:500")
+	if onlyW2 {
+		// no spender: which credits the first step leaves then does not matter for the counts observed below
+		// (the model scans the credit list in its own order)
+		op("block", "block B6 F.4 C2")
+	} else {
+		op("tx", "tx X3 3 CBIG:0;CBIG:20002 X1:1")
+		op("block", "block B6 F.4 C2;X3")
+	}
+	op("submit", "submit B6")
+	op("notify", "notify B6")
+	op("q-bal", "bal W2 1")
+	op("q-bal", "bal W1 1")
+	op("dangling-before", "dangling")
+	op("remove", "remove W2 good")
+	op("tasks", "tasks")
+	op("rembegin", "rembegin W2")
+	op("remstep-big", "remstep")
+	op("dangling-between", "dangling")
+	op("residue-between", "residue W2")
+	for i := 0; i < 6; i++ {
+		op("detach", "detach")
+	}
+	op("tx", "tx C1b 11 cb X1:5")
+	op("block", "block B1b G C1b")
+	op("submit", "submit B1b")
+	op("fill", "fill 6 H 1")
+	op("synced", "synced")
+	op("dangling-reorg-between-steps", "dangling")
+	if onlyW2 {
+		op("residue-between", "residue W2") // no credit of the rolled-back coinbase is left (u/u:20000, no u/c)
+	}
+	op("q-bal", "bal W1 1")
+	op("remstep-big", "remstep")
+	op("remstep-extra", "remstep")
+	op("dangling-after", "dangling")
+	op("residue-after", "residue W2")
+	op("wallets", "wallets")
+	op("q-bal", "bal W1 1")
+	g.Stats["reorg-below-first-step-between-steps"]++
+}
+
+// genRemTwoStep: SMALL histories in which the removal needs more than one database transaction, with the wallet
+// ROLLED BACK to a random earlier block BETWEEN the steps (below or above the first step's tip) - the domain of
+// defect D45, which the interleaving theorems do not cover in general.  20000 credits are out of reach of the quick
+// tier; the other way out of removeRelevantCredit's loop is its two-heights break: a coinbase of the removed wallet
+// (paying only that wallet) is mined at TWO heights, the scan deletes its credits at the first height and stops at the
+// second.  (Such a chain is not consensus-valid; nothing else in the history depends on it: the survivor is paid by
+// ordinary coinbases only, so its specification columns apply.)  The wallet is rolled back by the notification of an
+// old block of the same chain (the node never detaches: its database cannot delete a block that spends a transaction
+// whose second occurrence was deleted before) and catches up with the next notification.
+// Own random source: the rest of the stream is the same with and without these histories.
+func genRemTwoStep(g *Gen, idx int) {
+	r := rand.New(rand.NewSource(g.Seed*7919 + int64(idx)*31 + 5))
+	g.Reset()
+	op := g.Op
+	op("params", "params 4 3")
+	op("wallet", "wallet W1")
+	op("addr", "addr W1 A1 std")
+	op("wallet", "wallet W2")
+	op("addr", "addr W2 A2 std")
+	seq := 0
+	next := func() int { seq++; return seq }
+	tip := "G"
+	var chain []string
+	mine := func(cb string, txs ...string) string {
+		b := fmt.Sprintf("B%d", len(chain))
+		op("block", "block %s %s %s", b, tip, strings.Join(append([]string{cb}, txs...), ";"))
+		op("submit", "submit %s", b)
+		op("notify", "notify %s", b)
+		tip = b
+		chain = append(chain, b)
+		return b
+	}
+	filler := func() string {
+		c := fmt.Sprintf("C%d", next())
+		op("tx", "tx %s %d cb X1:500", c, seq)
+		return c
+	}
+	mine(filler())
+	// K: ordinary coinbase paying both wallets; D, E: coinbases paying only W2 (each may be mined a second time)
+	// (some of W2's coins are staking deposits: Rollback then also moves the deposit records keyed by the wallet id)
+	stk := map[string]bool{}
+	w2out := func(coin string) string {
+		if r.Intn(3) == 0 {
+			stk[coin] = true
+			g.Stats["two-step-staking-coin"]++
+			return "A2:1000:stk:3"
+		}
+		return "A2:1000"
+	}
+	op("tx", "tx K %d cb %s;A1:1000;%s", next(), w2out("K:0"), w2out("K:2"))
+	op("tx", "tx D %d cb %s;%s", next(), w2out("D:0"), w2out("D:1"))
+	op("tx", "tx E %d cb %s;%s", next(), w2out("E:0"), w2out("E:1"))
+	order := [][]string{{"K", "D", "E"}, {"D", "K", "E"}, {"D", "E", "K"}, {"E", "D", "K"}}[r.Intn(4)]
+	for _, c := range order {
+		mine(c)
+	}
+	for i := 0; i < 4; i++ {
+		mine(filler())
+	}
+	// spenders: each takes one or two of the six matured coins; outputs to strangers / the survivor / the removed wallet
+	coins := []string{"K:0", "K:1", "K:2", "D:0", "D:1", "E:0", "E:1"}
+	r.Shuffle(len(coins), func(i, j int) { coins[i], coins[j] = coins[j], coins[i] })
+	var spenders []string
+	for len(coins) > 0 && len(spenders) < 4 {
+		n := 1 + r.Intn(2)
+		if n > len(coins) {
+			n = len(coins)
+		}
+		ins := append([]string{}, coins[:n]...)
+		coins = coins[n:]
+		for i, c := range ins {
+			if stk[c] {
+				ins[i] = c + ":4" // sequence = frozen period + 1
+			}
+		}
+		if r.Intn(5) == 0 {
+			continue // this coin stays unspent
+		}
+		name := fmt.Sprintf("X%d", next())
+		out := []string{"X1", "X1", "A1", "A2"}[r.Intn(4)]
+		op("tx", "tx %s %d %s %s:%d", name, seq, strings.Join(ins, ";"), out, 1000*n-1)
+		spenders = append(spenders, name)
+		if n == 2 {
+			g.Stats["two-step-spender-of-two-coins"]++
+		}
+	}
+	mine(filler(), spenders...)
+	// the second occurrences
+	dup := []string{"D"}
+	switch r.Intn(3) {
+	case 1:
+		dup = []string{"E"}
+	case 2:
+		dup = []string{"D", "E"}
+	}
+	for _, c := range dup {
+		mine(c)
+	}
+	if r.Intn(2) == 0 {
+		mine(filler())
+	}
+	op("q-bal", "bal W1 1")
+	op("dangling-before", "dangling")
+	op("remove", "remove W2 good")
+	op("tasks", "tasks")
+	op("rembegin", "rembegin W2")
+	op("remstep-two", "remstep") // parked: the scan stopped at the second height
+	op("dangling-between", "dangling")
+	if r.Intn(4) == 0 {
+		op("remquit", "remquit")
+		op("restart", "restart")
+		op("inittasks", "inittasks")
+		op("tasks", "tasks")
+		op("rembegin", "rembegin W2")
+		g.Stats["restart-between-removal-steps"]++
+	}
+	// the wallet goes back to a random block of its chain, below or above the blocks of K / D / E and of the spenders
+	back := r.Intn(len(chain) - 1)
+	op("notify-old", "notify %s", chain[back])
+	op("synced", "synced")
+	op("dangling-rolled-back-between-steps", "dangling")
+	if back <= 4 {
+		g.Stats["rollback-below-first-step-between-steps"]++
+	}
+	if r.Intn(3) == 0 {
+		op("remsteps", "remsteps 1") // a step while the wallet is behind
+		op("dangling-between", "dangling")
+	}
+	if r.Intn(2) == 0 {
+		mine(filler()) // catch up through a new block
+	} else {
+		op("notify", "notify %s", tip)
+	}
+	op("synced", "synced")
+	op("dangling-between", "dangling")
+	op("q-bal", "bal W1 1")
+	op("remsteps", "remsteps 6")
+	op("remstep-extra", "remstep")
+	op("dangling-after", "dangling")
+	op("residue-after", "residue W2")
+	op("wallets", "wallets")
+	op("q-bal", "bal W1 1")
+	op("q-utxos", "utxos W1")
+	// later: back again and forward
+	back = r.Intn(len(chain) - 1)
+	op("notify-old", "notify %s", chain[back])
+	op("notify", "notify %s", tip)
+	op("synced", "synced")
+	op("dangling-later", "dangling")
+	op("residue-later", "residue W2")
+	op("q-bal", "bal W1 1")
+	op("q-utxos", "utxos W1")
+	g.Stats["two-step-small"]++
 }
 
 // genRemMixed: transactions with inputs from BOTH the wallet being removed (A) and a survivor (B), in both
@@ -407,6 +661,9 @@ func genRemMixed(g *Gen) {
 	op("tasks", "tasks")
 	op("rembegin", "rembegin %s", A)
 	op("remstep", "remstep")
+	if rand.New(rand.NewSource(g.Seed*350377 + int64(g.N))).Intn(3) == 0 {
+		crashInLastStep(g, op)
+	}
 	op("remstep-extra", "remstep")
 	op("residue-after", "residue %s", A)
 	op("wallets", "wallets")
